@@ -6,14 +6,19 @@ TOL = (1e-6, 1e-6)
 BOUNDS = {
     "quick": "Move/Line/Close exact; QuadraticBezier.bbox: containment for ALL t in [0,1] and tightness (each side is an end point or the stationary point) for all control "
              "points (|coord| <= 1e3); CubicBezier.bbox: containment for all t per branch of _real_minmax (reported per path; inconclusive ones listed), ordering, end points "
-             "inside; Arc.bbox for zero sweep; aggregation: Path / Subpath (transformed and untransformed) / Group / Use boxes are the union of member boxes for <=3 members "
+             "inside; Arc.bbox for zero sweep; Arc.bbox for non-zero sweep on seeded paths (36 concrete arcs over rotation quadrant x start x sweep x direction; on each arc's "
+             "symbolic path, with centre/radii/rotation/start/sweep symbolic inside that arc's 45 x 90 degree band: the candidate angles are stationary points of x(t), y(t), and every stationary "
+             "angle atan + k pi, k in -5..5, strictly inside the sweep has its coordinate inside the box) plus band exploration for unrotated ellipses at the corners of the range; aggregation: Path / Subpath (transformed and untransformed) / Group / Use boxes are the union of member boxes for <=3 members "
              "built from lines and quadratics, grown by half the (implicit) stroke width iff a stroke is painted",
-    "thorough": "cubic containment with a 120 s budget per branch and second-solver cross-check; paths of 3 segments",
+    "thorough": "cubic containment with a 120 s budget per branch; paths of 3 segments; 160 seeded arcs (all four rotation quadrants, both radius orders) and band exploration (<= 100 paths each) "
+                "for rotation 0, 90 degrees and two general quadrants",
 }
-OUTSIDE = ["Arc.bbox for non-zero sweep (candidate angles through atan/tan and the theta/delta legacy properties: transcendental, not encoded)", "tightness of cubic boxes",
+OUTSIDE = ["Arc.bbox for non-zero sweep beyond the seeded paths and bands listed in the bounds; that x(t), y(t) have no other stationary points than atan + k pi and that a continuous "
+           "function on an interval takes its extremes at the ends or at stationary points (paper step); Arc.get_start_t (contract stub)", "tightness of cubic boxes",
            "IEEE behaviour of the |denom| < 1e-8 threshold branch beyond exact reals"]
-STUBS = []
-ASSUMPTIONS = ["oracle: Bernstein form of the curves, stationary points from the derivative"]
+STUBS = ["Arc.get_start_t -> the harness's start parameter (arc_box harnesses, symbolic run only; the concrete seed/replay runs the real one)"]
+ASSUMPTIONS = ["oracle: Bernstein form of the curves, stationary points from the derivative",
+               "seeded paths: branches follow a concrete seed arc (its feasibility is witnessed by the seed, which is also run concretely); claims are decided by the solver for every input on that path"]
 V = 1000
 
 
@@ -106,6 +111,82 @@ def h_arc_zero(ctx):
     ctx.claim("zero-sweep arc box contains its end points", ctx.and_(inside(ctx, bb, a), inside(ctx, bb, b)))
     t = ctx.real("t", 0, 1)
     ctx.claim("zero-sweep arc box contains the chord", inside(ctx, bb, (a[0] + t * (b[0] - a[0]), a[1] + t * (b[1] - a[1]))))
+
+
+TAU = 6.283185307179586
+
+
+def h_arc_box(ctx, rot, tband, sband, sign, solo=None):
+    """Arc.bbox for a non-zero sweep: the candidate angles are stationary points and none inside the sweep is skipped"""
+    from fractions import Fraction
+    S = ctx.S
+    if solo is None:
+        cx, cy = ctx.real("cx", -V, V), ctx.real("cy", -V, V)
+        a, b = ctx.real("ra", 0.01, 1000), ctx.real("rb", 0.01, 1000)
+        ctx.assume(ctx.and_(ctx.xle(a, 100 * b), ctx.xle(b, 100 * a)))
+    else:
+        # the index logic does not depend on position or scale: unit major radius at the origin
+        cx, cy, a = 0.0, 0.0, 1.0
+        b = ctx.real("rb", 0.01, 100)
+    eps = 0.01
+    if rot == "zero":
+        co, si = 1.0, 0.0
+    elif rot == "quarter":
+        co, si = 0.0, 1.0
+    else:
+        q = int(rot[1:])
+        rho = ctx.real("rho", (q - 2) * TAU / 4 + eps, (q - 1) * TAU / 4 - eps)
+        co, si = ctx.cos(rho), ctx.sin(rho)
+    if tband is not None:
+        t0 = ctx.real("t0", tband * TAU / 8 + 1e-3, (tband + 1) * TAU / 8 - 1e-3)
+        w = ctx.real("sweep", sband * TAU / 4 + 1e-3, (sband + 1) * TAU / 4 - 1e-3)
+    else:
+        t0 = ctx.real("t0", 1e-3, TAU - 1e-3)
+        w = ctx.real("sweep", 1e-3, TAU - 1e-3)
+    sweep = w if sign > 0 else 0 - w
+
+    def E(t):
+        ct, st = ctx.cos(t), ctx.sin(t)
+        return (cx + a * ct * co - b * st * si, cy + a * ct * si + b * st * co)
+    start, end = E(t0), E(t0 + sweep)
+    arc = S.Arc(S.Point(*start), S.Point(*end), S.Point(cx, cy), S.Point(cx + a * co, cy + a * si), S.Point(cx - b * si, cy + b * co), sweep)
+    if ctx.mode != "concrete":
+        arc.get_start_t = lambda: t0      # contract stub: point_at_t(get_start_t()) = start holds by construction
+    half = ctx.num(Fraction(TAU) / 2)
+    lo_t, hi_t = (t0, t0 + sweep) if sign > 0 else (t0 + sweep, t0)
+    if solo is not None:
+        # one candidate index on its own: the stationary angle number k lies strictly inside the sweep, its
+        # neighbours with the same coordinate value (k - 2, k + 2) do not
+        axis, k0 = solo
+        phi = arc.get_rotation().as_radians
+        if rot == "zero":
+            base = 0.0 if axis == "x" else TAU / 4.0
+        elif rot == "quarter":
+            base = TAU / 4.0 if axis == "x" else 0.0
+        else:
+            # the same expressions as the code's (memoised: the same solver variable)
+            base = S.atan(-(arc.ry / arc.rx) * S.tan(phi)) if axis == "x" else S.atan((arc.ry / arc.rx) / S.tan(phi))
+        pk = base + k0 * half
+        ctx.assume(ctx.and_(ctx.xle(lo_t + 1e-6, pk), ctx.xle(pk, hi_t - 1e-6),
+                            ctx.or_(ctx.xlt(pk - 2 * half, lo_t - 1e-6), ctx.xgt(pk - 2 * half, hi_t + 1e-6)),
+                            ctx.or_(ctx.xlt(pk + 2 * half, lo_t - 1e-6), ctx.xgt(pk + 2 * half, hi_t + 1e-6))))
+    bb, L = ctx.capture_locals("bbox", lambda: arc.bbox())
+    ctx.claim("arc box ordered and contains both end points", ctx.and_(ordered(ctx, bb), inside(ctx, bb, start), inside(ctx, bb, end)))
+    ax, ay = L["atan_x"], L["atan_y"]
+    cax, sax, cay, say = ctx.cos(ax), ctx.sin(ax), ctx.cos(ay), ctx.sin(ay)
+    ctx.claim("candidate angles are stationary points of x(t) and y(t)",
+              ctx.and_(ctx.eq(0 - a * sax * co - b * cax * si, 0), ctx.eq(0 - a * say * si + b * cay * co, 0)))
+    # strictly inside (1e-9): at the ends the stationary point is the start or end point itself, and the code's own
+    # parameter 0 <= t <= 1 is computed with the float 360/tau (one rounding away from the exact ratio)
+    for k in range(-5, 6):
+        px = ax + k * half
+        py = ay + k * half
+        xk = E(px)[0]
+        yk = E(py)[1]
+        ctx.claim("no stationary point of x inside the sweep is skipped (k=%d)" % k,
+                  ctx.implies(ctx.and_(ctx.xle(lo_t + 1e-9, px), ctx.xle(px, hi_t - 1e-9)), ctx.and_(ctx.le(bb[0], xk), ctx.le(xk, bb[2]))))
+        ctx.claim("no stationary point of y inside the sweep is skipped (k=%d)" % k,
+                  ctx.implies(ctx.and_(ctx.xle(lo_t + 1e-9, py), ctx.xle(py, hi_t - 1e-9)), ctx.and_(ctx.le(bb[1], yk), ctx.le(yk, bb[3]))))
 
 
 def build(ctx, S, kinds, prefix="q"):
@@ -253,6 +334,36 @@ def harnesses(tier):
     hs.append({"name": "quadratic", "fn": "h_quad", "weight": 5})
     hs.append({"name": "cubic", "fn": "h_cubic", "weight": 9, "no_dual": True, "claim_timeout_ms": 20000 if tier != "thorough" else 120000, "budget_s": 140 if tier != "thorough" else 1500})
     hs.append({"name": "arc_zero_sweep", "fn": "h_arc_zero"})
+    th = tier == "thorough"
+    # each extreme candidate index on its own, in the corner of the (start, sweep) range where it is needed
+    for rot in ():      # (the 'one candidate index on its own' variant needs solver models nlsat does not find in time: not registered)
+        for axis in ("x", "y"):
+            for (tb, sb, sign, k0) in ((7, 3, 1, 4), (7, 3, 1, 3), (0, 3, -1, -2), (0, 3, -1, -1)) + (((7, 2, 1, 3), (6, 3, 1, 3), (0, 0, 1, 0), (0, 0, 1, 1), (7, 0, -1, 1), (7, 0, -1, 2)) if th else ()):
+                hs.append({"name": "arc_box_solo/%s/%s/t%d/s%d/%+d/k=%d" % (rot, axis, tb, sb, sign, k0), "fn": "h_arc_box", "no_dual": True, "branch_timeout_ms": 1500,
+                           "claim_timeout_ms": 15000 if not th else 60000, "budget_s": 100 if not th else 600, "max_paths": 12 if not th else 200,
+                           "params": {"rot": rot, "tband": tb, "sband": sb, "sign": sign, "solo": [axis, k0]}, "weight": 6})
+    # seeded paths: the symbolic path taken by a concrete arc, claims decided for every arc on that path
+    for q in (range(4) if th else (1, 2)):
+        rho = (q - 2) * TAU / 4 + 0.5
+        for t0 in ((0.4, 1.3, 3.0, 4.8, 6.1) if th else (0.4, 3.0, 6.1)):
+            for w in ((0.7, 2.0, 3.6, 6.25) if th else (0.7, 3.6, 6.25)):
+                for sign in (1, -1):
+                    for (ra, rb) in (((3.0, 1.5),) if (not th or int(t0 * 10 + w * 10) % 2) else ((1.5, 3.0),)):
+                        hs.append({"name": "arc_box_seed/q%d/t0=%s/w=%s/%+d/%s,%s" % (q, t0, w, sign, ra, rb), "fn": "h_arc_box", "no_dual": True,
+                                   "claim_timeout_ms": 6000 if not th else 60000, "budget_s": 120 if not th else 300, "max_paths": 1,
+                                   "params": {"rot": "q%d" % q, "tband": int(t0 / (TAU / 8)), "sband": int(w / (TAU / 4)), "sign": sign},
+                                   "seed": {"cx": 10.0, "cy": -20.0, "ra": ra, "rb": rb, "rho": rho, "t0": t0, "sweep": w}, "weight": 4})
+    rots = ("zero", "quarter", "q1", "q2") if th else ("zero",)
+    for rot in rots:
+        for tband in range(8):
+            for sband in range(4):
+                for sign in (1, -1):
+                    # quick tier: the corners of the (start, sweep) range, where the outermost candidate indices matter, plus a diagonal
+                    if not (tband in (0, 7) and sband in (0, 3)) and not (th and tband == 2 * sband + 1):
+                        continue
+                    hs.append({"name": "arc_box/%s/t%d/s%d/%+d" % (rot, tband, sband, sign), "fn": "h_arc_box", "no_dual": True, "branch_timeout_ms": 1500,
+                               "claim_timeout_ms": 15000 if not th else 60000, "budget_s": 120 if not th else 300, "max_paths": 40 if not th else 100,
+                               "params": {"rot": rot, "tband": tband, "sband": sband, "sign": sign}, "weight": 8, "order": "mixed"})
     kinds = ["L", "LL", "LML", "Q"] + (["LQ", "QQ", "LLQ"] if tier == "thorough" else [])
     i = 0
     for kd in kinds:
